@@ -297,6 +297,46 @@ func runC14(c *Ctx) {
 		c.guardRule("R14.4", g.name, p.uses(g.f))
 	}
 	c.capturedMapGuard("R14.4")
+
+	// ---- R14.5 pooled buffers
+	c.ruleOpt("R14.5", "an object handed back to a sync.Pool (and byte slices obtained from it) is not used afterwards")
+	for _, fn := range p.Funcs {
+		allInstrs(fn, func(in ssa.Instruction) {
+			put, ok := in.(*ssa.Call)
+			if !ok || calleeName(put) != "(*sync.Pool).Put" {
+				return
+			}
+			obj := stripConv(put.Common().Args[1])
+			derived := map[ssa.Value]bool{obj: true}
+			if refs := obj.Referrers(); refs != nil {
+				for _, ref := range *refs {
+					if call, ok := ref.(*ssa.Call); ok && call != put {
+						if _, isSlice := call.Type().Underlying().(*types.Slice); isSlice {
+							derived[call] = true
+						}
+					}
+				}
+			}
+			construct := fmt.Sprintf("%s: object returned to a sync.Pool", fname(fn))
+			use := reachFrom(put, func(x ssa.Instruction) bool {
+				if x == ssa.Instruction(put) {
+					return false
+				}
+				for _, op := range x.Operands(nil) {
+					if op != nil && *op != nil && derived[stripConv(*op)] {
+						if _, isDbg := x.(*ssa.DebugRef); !isDbg {
+							return true
+						}
+					}
+				}
+				return false
+			}, nil)
+			c.check(use == nil, "R14.5", construct, c.ipos(put), "not used after Put", "the pooled object (or a byte slice taken from it) is still used after being returned to the pool: a concurrent sender overwrites the bytes that are about to be written, so frames are duplicated, lost or blended")
+			if use != nil {
+				_ = use
+			}
+		})
+	}
 }
 
 // guardRule: infer the guard (the lock most often held) and require it at every
